@@ -49,6 +49,9 @@
 //! 4. A structure from your own crate that can be converted into `Doc`
 //!
 
+#[cfg(bpaf_verif)]
+#[allow(unused_imports)]
+use crate::verif::std;
 #[doc(inline)]
 pub use crate::buffer::{Doc, MetaInfo, Style};
 
